@@ -50,7 +50,13 @@ def _worker_init():
     # workers print mo_threads/atexit noise on stderr; keep the check's own stdout clean
     try:
         os.makedirs(os.path.join(VERIF, "work"), exist_ok=True)
-        fd = os.open(os.path.join(VERIF, "work", "worker_stderr.log"), os.O_WRONLY | os.O_CREAT | os.O_APPEND)
+        logp = os.path.join(VERIF, "work", "worker_stderr.log")
+        try:
+            if os.path.getsize(logp) > 20 * 1024 * 1024:      # the noise of earlier runs is of no use: start over
+                os.truncate(logp, 0)
+        except OSError:
+            pass
+        fd = os.open(logp, os.O_WRONLY | os.O_CREAT | os.O_APPEND)
         os.dup2(fd, 2)
         os.dup2(fd, 1)
     except Exception:
